@@ -145,6 +145,8 @@ theorem verifyRLP_source :
       "compare, err := RLPToCanopyTransaction(tx.Signature.Signature); if tx.Memo == RLPV2Indicator { compare, err = RLPToCanopyTransactionV2(tx.Signature.Signature) }; if err != nil { return err }; compareHash, err := compare.GetHash(); if err != nil { return err }; originalHash, err := tx.GetHash(); if err != nil { return err }; if !bytes.Equal(compareHash, originalHash) { return ErrInvalidSignature() }; return nil" := by
   decide
 
+deriving instance DecidableEq for Except
+
 /-! ## authorization -/
 
 /-- The property in the model's vocabulary: whatever `applyTx` accepts was authenticated by a key
@@ -185,7 +187,7 @@ private theorem mem_of_nonce {P : List Change → List α} (happ : ∀ a b, P (a
 theorem authorization (e : Env) (cfg : Cfg) (st : State) : Authorization e cfg st := by
   intro tx nid s log h
   obtain ⟨m, auth, hpre, hauth, hsig, heff⟩ := applyTx_ok h
-  obtain ⟨pk, hpk, _, hauthn, haddr, hmem⟩ := checkSignature_ok hsig
+  obtain ⟨pk, hpk, _, hauthn, haddr, hmem, _⟩ := checkSignature_ok hsig
   obtain ⟨l0, l, hl0, hl, hlog⟩ := effects_ok heff
   obtain ⟨b1, b2, b3, b4, b5, b6, _⟩ := base_log (chain := cfg.chain) hl0
   have e1 : debited log = debited l := mem_of_nonce debited_append (fun _ => by cls) hlog
@@ -383,7 +385,7 @@ theorem signer_from_verified_key (e : Env) (cfg : Cfg) (st : State) (tx : Tx) (n
   have hm' := precheck_msg hpre
   rw [hm] at hm'
   cases hm'
-  obtain ⟨pk, hpk, _, hauthn, haddr, hmem⟩ := checkSignature_ok hsig
+  obtain ⟨pk, hpk, _, hauthn, haddr, hmem, _⟩ := checkSignature_ok hsig
   refine ⟨precheck_noWireSigner hpre, ?_, pk, hpk, hauthn, haddr⟩
   obtain ⟨l0, l, hl0, hl, hlog⟩ := effects_ok heff
   obtain ⟨b1, _⟩ := base_log (chain := cfg.chain) hl0
@@ -429,26 +431,38 @@ theorem enabled_sublist (ks : List Bytes) (bits : List Bool) (h : bits.length = 
   rw [h2] at h1
   exact h1
 
-/-- Acceptance under a multisig key `(keys, bitmap, threshold)` implies: at least `threshold`
-distinct keys of the listed set signed exactly this content. (`Env.WF`: an aggregate exists only over
-signatures its members produced.) -/
-theorem multisig_threshold (e : Env) (hwf : e.WF) (cfg : Cfg) (st : State) (tx : Tx) (nid : Bytes) (s : Addr)
-    (log : List Change) (ks : List Bytes) (bits : List Bool) (thr : Nat)
+/-- the multisig verification result behind an accepted transaction -/
+private theorem multisig_verifies {e : Env} {cfg : Cfg} {st : State} {tx : Tx} {nid : Bytes} {s : Addr}
+    {log : List Change} {ks : List Bytes} {bits : List Bool} {thr : Nat}
     (hpk : tx.pk = some (.multi ks bits thr)) (h : applyTx e cfg st tx nid = .ok (s, log)) :
-    ∃ S : List Bytes, S.Sublist ks ∧ S.Nodup ∧ thr ≤ S.length ∧ ∀ k ∈ S, ∃ sg, (k, tx.content, sg) ∈ e.signed := by
+    e.verifies (.multi ks bits thr) tx.content tx.sig = true ∧ (PubKey.multi ks bits thr).wf = true ∧
+    (cfg.requireSigner = true → enabled ks bits ≠ []) := by
   obtain ⟨m, auth, _, _, hsig, _⟩ := applyTx_ok h
-  obtain ⟨pk, hpk', hwfk, hauthn, _, _⟩ := checkSignature_ok hsig
+  obtain ⟨pk, hpk', hwfk, hauthn, _, _, hg⟩ := checkSignature_ok hsig
   rw [hpk] at hpk'
   cases hpk'
-  -- not the wrapper path: a multisig key is no Ethereum key
-  unfold authenticates at hauthn
-  have hv : e.verifies (.multi ks bits thr) tx.content tx.sig = true := by
+  refine ⟨?_, hwfk, ?_⟩
+  · -- not the wrapper path: a multisig key is no Ethereum key
+    unfold authenticates at hauthn
     split at hauthn
     · simp [PubKey.isEth] at hauthn
     · split at hauthn
       · assumption
       · cases hauthn
-  simp [Env.verifies] at hv
+  · intro hr
+    have := hg hr
+    simpa [PubKey.noSigner] using this
+
+/-- Acceptance under a multisig key `(keys, bitmap, threshold)` implies: at least `threshold`
+distinct keys of the listed set signed exactly this content. (`Env.WF`: an aggregate exists only over
+signatures its members produced.) Holds with and without the signer guard; for `threshold = 0` it is
+vacuous — see `multisig_member_signed` for the clause that is not. -/
+theorem multisig_threshold (e : Env) (hwf : e.WF) (cfg : Cfg) (st : State) (tx : Tx) (nid : Bytes) (s : Addr)
+    (log : List Change) (ks : List Bytes) (bits : List Bool) (thr : Nat)
+    (hpk : tx.pk = some (.multi ks bits thr)) (h : applyTx e cfg st tx nid = .ok (s, log)) :
+    ∃ S : List Bytes, S.Sublist ks ∧ S.Nodup ∧ thr ≤ S.length ∧ ∀ k ∈ S, ∃ sg, (k, tx.content, sg) ∈ e.signed := by
+  obtain ⟨hv, hwfk, _⟩ := multisig_verifies hpk h
+  simp [Env.verifies, Env.aggregateValid] at hv
   simp [PubKey.wf] at hwfk
   obtain ⟨hagg, hthr⟩ := hv
   obtain ⟨⟨⟨_, _⟩, hnd⟩, hlen⟩ := hwfk
@@ -458,11 +472,111 @@ theorem multisig_threshold (e : Env) (hwf : e.WF) (cfg : Cfg) (st : State) (tx :
     · omega
     · exact h1
   · intro k hk
-    exact hwf tx.sig tx.content ks bits hagg k hk
+    rcases hagg with hagg | ⟨hempty, _⟩
+    · exact hwf tx.sig tx.content ks bits hagg k hk
+    · rw [hempty] at hk; cases hk
+
+/-- **The multisig clause at full strength** (live obligation since repair dc0ba0c; the hypothesis
+`cfg.requireSigner = true` is what the regenerated source fact `signer_guard_source` shows of the
+code): acceptance under a multisig key implies that at least one listed member signed exactly this
+content, and at least `threshold` distinct listed members did. -/
+theorem multisig_member_signed (e : Env) (hwf : e.WF) (cfg : Cfg) (hguard : cfg.requireSigner = true) (st : State)
+    (tx : Tx) (nid : Bytes) (s : Addr) (log : List Change) (ks : List Bytes) (bits : List Bool) (thr : Nat)
+    (hpk : tx.pk = some (.multi ks bits thr)) (h : applyTx e cfg st tx nid = .ok (s, log)) :
+    (∃ k ∈ ks, ∃ sg, (k, tx.content, sg) ∈ e.signed) ∧
+    ∃ S : List Bytes, S.Sublist ks ∧ S.Nodup ∧ thr ≤ S.length ∧ ∀ k ∈ S, ∃ sg, (k, tx.content, sg) ∈ e.signed := by
+  refine ⟨?_, multisig_threshold e hwf cfg st tx nid s log ks bits thr hpk h⟩
+  obtain ⟨hv, hwfk, hne⟩ := multisig_verifies hpk h
+  have hne := hne hguard
+  simp [Env.verifies, Env.aggregateValid] at hv
+  simp [PubKey.wf] at hwfk
+  obtain ⟨hagg, _⟩ := hv
+  obtain ⟨_, hlen⟩ := hwfk
+  have hsub := enabled_sublist ks bits hlen
+  rcases hagg with hagg | ⟨hempty, _⟩
+  · match hen : enabled ks bits with
+    | [] => exact absurd hen hne
+    | k :: _ =>
+      have hk : k ∈ enabled ks bits := by rw [hen]; simp
+      exact ⟨k, hsub.subset hk, hwf tx.sig tx.content ks bits hagg k hk⟩
+  · exact absurd hempty hne
+
+/-- Without the guard the same clause holds only under the hypothesis `threshold ≥ 1` -/
+theorem multisig_member_signed_partial (e : Env) (hwf : e.WF) (cfg : Cfg) (st : State) (tx : Tx) (nid : Bytes)
+    (s : Addr) (log : List Change) (ks : List Bytes) (bits : List Bool) (thr : Nat) (hthr : thr ≥ 1)
+    (hpk : tx.pk = some (.multi ks bits thr)) (h : applyTx e cfg st tx nid = .ok (s, log)) :
+    ∃ k ∈ ks, ∃ sg, (k, tx.content, sg) ∈ e.signed := by
+  obtain ⟨S, hsub, _, hlen, hS⟩ := multisig_threshold e hwf cfg st tx nid s log ks bits thr hpk h
+  match S, hlen, hsub, hS with
+  | [], hlen, _, _ => simp at hlen; omega
+  | k :: _, _, hsub, hS => exact ⟨k, hsub.subset (by simp), hS k (by simp)⟩
+
+/-- the guard of repair dc0ba0c is in the source, between decoding the key and verifying anything -/
+theorem signer_guard_source :
+    Gen.Auth.multisigSignerGuard =
+      "if multiKey, isMulti := publicKey.(*crypto.BLS12381MultiPublicKey); isMulti && multiKey.EnabledSignerCount() == 0 { return nil, ErrInvalidSignature() }" ∧
+    Gen.Auth.multisigSignerGuardInPlace = true := by
+  decide
+
+/-- **Before the repair the clause was false for threshold 0** (found by this slice, reproduced on the
+real code through all three verification paths, recorded as `fixed:` in known_findings; the Go driver
+re-offers the transaction on every run under the oracle signature `C05:multisig-no-signer-accepted`):
+the verification layer — unchanged by the repair — authenticates, for EVERY member list and EVERY
+content, the key with threshold 0 and an empty bitmap with the identity of G2 as "signature", in ANY
+environment, in particular one in which nobody has signed anything. (`NewPublicKeyFromBytes` decodes
+multisig keys with the consensus constructor, which allows threshold 0; the aggregate key of an empty
+mask is the identity of G1, against which the identity signature verifies for every message;
+`threshold == 0 ||` waives the signer count.) -/
+theorem open_multisig_authenticates_without_signature (e : Env) (ks : List Bytes) (c : Content)
+    (hm : c.memo ≠ rlpV2Memo) :
+    authenticates e ⟨c, some (.multi ks (List.replicate ks.length false) 0), identitySig⟩
+      (.multi ks (List.replicate ks.length false) 0) = .ok () := by
+  have hen : enabled ks (List.replicate ks.length false) = [] := by
+    unfold enabled
+    have : (ks.zip (List.replicate ks.length false)).filter (·.2) = [] := by
+      rw [List.filter_eq_nil_iff]
+      intro p hp
+      have := (List.of_mem_zip hp).2
+      simp [List.mem_replicate] at this
+      simp [this]
+    rw [this]; rfl
+  unfold authenticates
+  simp [hm, PubKey.isEth, Env.verifies, Env.aggregateValid, hen]
+
+/-- the pre-repair witness, evaluated by the kernel: three members, an environment in which nobody
+signed anything, the address of the key authorized. Without the guard `CheckSignature` returns that
+address (the transaction goes on to debit it); with the guard it answers `ErrInvalidSignature`; with
+threshold 2 the empty bitmap was always refused. -/
+theorem open_multisig_witness :
+    let c : Content := { messageType := "send", msg := none, time := 1, createdHeight := 1, fee := 1, memo := "",
+                         networkId := 1, chainId := 1, nonce := 0 }
+    let e : Env := {}
+    let k0 := PubKey.multi [[1], [2], [3]] [false, false, false] 0
+    let k2 := PubKey.multi [[1], [2], [3]] [false, false, false] 2
+    authenticates e ⟨c, some k0, identitySig⟩ k0 = .ok () ∧
+    k0.wf = true ∧ k0.noSigner = true ∧
+    authenticates e ⟨c, some k2, identitySig⟩ k2 = .error eInvalidSignature := by
+  decide
+
+/-- the guard turns the witness into a rejection whatever the authorized set is -/
+theorem open_multisig_refused_with_guard (e : Env) (c : Content) (auth : List Addr) (ks : List Bytes) (thr : Nat) :
+    ∀ a, checkSignature true e ⟨c, some (.multi ks (List.replicate ks.length false) thr), identitySig⟩ auth ≠ .ok a := by
+  intro a h
+  obtain ⟨pk, hpk, _, _, _, _, hg⟩ := checkSignature_ok h
+  cases hpk
+  have := hg rfl
+  have hen : enabled ks (List.replicate ks.length false) = [] := by
+    unfold enabled
+    have : (ks.zip (List.replicate ks.length false)).filter (·.2) = [] := by
+      rw [List.filter_eq_nil_iff]
+      intro p hp
+      have := (List.of_mem_zip hp).2
+      simp [List.mem_replicate] at this
+      simp [this]
+    rw [this]; rfl
+  simp [PubKey.noSigner, hen] at this
 
 /-! ## non-vacuity -/
-
-deriving instance DecidableEq for Except
 
 namespace Demo
 def alice : Addr := List.replicate 20 1
